@@ -50,7 +50,7 @@ def run_impl(case, d):
                     "pct": [float(rec[c]) for c in ("idle_time_pctg", "compute_time_pctg", "non_compute_time_pctg")]}
         except Exception as e:
             out = {"error": type(e).__name__ + ": " + str(e)[:200]}
-    return {"frames": frames, "out": out}
+    return {"frames": frames, "out": out, "frames_altered": fw.frames_altered(case, ta, frames, sym)}
 
 
 def coq_term(case, impl):
